@@ -12,6 +12,7 @@ import (
 
 	sdkmath "cosmossdk.io/math"
 	sdk "github.com/cosmos/cosmos-sdk/types"
+	distrtypes "github.com/cosmos/cosmos-sdk/x/distribution/types"
 	clienttypes "github.com/cosmos/ibc-go/v7/modules/core/02-client/types"
 	"github.com/ethereum/go-ethereum/accounts/abi"
 	"github.com/ethereum/go-ethereum/common"
@@ -82,6 +83,17 @@ func TestC05(t *testing.T) {
 				}
 				c05ICS20(r, id, endKind, who)
 			}
+		}
+	}
+	// (a4) an account first seen by the EVM inside the failed frame, after the precompile credited it
+	for rep := 0; rep < r.Pick(4, 60); rep++ {
+		for _, endKind := range []string{"revert", "invalid", "out-of-gas"} {
+			id := fmt.Sprintf("lateload/%s/%d", endKind, rep)
+			fidx++
+			if !r.Want(id, fidx) {
+				continue
+			}
+			c05LateLoad(r, id, endKind)
 		}
 	}
 	// (b) EVM-only failing frames (storage, balances, logs, creates, self-destructs) vs go-ethereum
@@ -978,4 +990,103 @@ func c05ICS20(r *report.R, id, endKind, who string) {
 	}
 	r.Count("ics20_failed_frames_without_trace", 1)
 	r.Nontriv(fmt.Sprintf("ics20|%s|%s", endKind, who))
+}
+
+// c05LateLoad: a frame calls a precompile that credits an account W the EVM has not seen yet, then
+// reads W's balance (so W is loaded into the StateDB with the credited balance), then fails; after
+// the failure was caught, W is sent some value and thereby becomes dirty. The credit belongs to the
+// failed frame: W must end with exactly the value sent, the supply must not move, nothing else may
+// change.
+func c05LateLoad(r *report.R, id, endKind string) {
+	rng := r.Rand(id)
+	e := newPcEnv(uint64(r.Seed), rng)
+	n := e.n
+	r.Eval(1)
+	origin := n.Accounts[rng.Intn(4)]
+	w := vn.DetAccount(uint64(r.Seed)^0x5151, id, 1)
+	// rewards of the signer go to W from now on
+	e.mustCosmos(origin, &distrtypes.MsgSetWithdrawAddress{DelegatorAddress: origin.Addr.String(), WithdrawAddress: w.Addr.String()})
+	e.nextBlock()
+	dels := n.App.StakingKeeper.GetDelegatorDelegations(n.Ctx(), origin.Addr, 5)
+	if len(dels) == 0 {
+		return
+	}
+	data, err := e.abiDist.Pack("withdrawDelegatorRewards", origin.Eth, dels[0].ValidatorAddress)
+	if err != nil {
+		return
+	}
+	end := []evmasm.Step{evmasm.Revert{}}
+	switch endKind {
+	case "invalid":
+		end = []evmasm.Step{evmasm.Invalid{}}
+	case "out-of-gas":
+		end = []evmasm.Step{evmasm.BurnGas{Loops: 1 << 40}}
+	}
+	load := append(append([]byte{0x73}, w.Eth.Bytes()...), 0x31, 0x50) // PUSH20 W; BALANCE; POP
+	inner := append([]evmasm.Step{evmasm.Forward{Kind: evmasm.Call, To: addrDist, Fail: evmasm.Bubble}, evmasm.Raw{Code: load}, evmasm.SStore{Slot: 9, Val: 9}}, end...)
+	d, err := e.deploy(inner, 1000)
+	if err != nil {
+		return
+	}
+	g := uint64(0)
+	if endKind == "out-of-gas" || endKind == "invalid" {
+		g = 900_000 // both burn everything they are given: leave the root enough to go on
+	}
+	sent := int64(1 + rng.Intn(500))
+	root, err := e.deploy([]evmasm.Step{evmasm.Forward{Kind: evmasm.Call, To: d, Gas: g, Fail: evmasm.Ignore, Record: 1}, evmasm.Transfer{To: w.Eth, Value: big.NewInt(sent)}}, 100_000)
+	if err != nil {
+		return
+	}
+	supBefore := n.Supply(vn.Denom)
+	wBefore := n.Balance(w.Addr, vn.Denom)
+	before := n.Snapshot(n.Ctx())
+	res := n.Deliver(n.EthTx(origin, vn.EthArgs{Nonce: n.EthNonce(origin.Eth), To: &root, Gas: 3_000_000, GasPrice: big.NewInt(1_000_000_000), Data: data}))
+	diff := vn.Diff(before, n.Snapshot(n.Ctx()))
+	ers := vn.EthResult(res)
+	if res.Code != 0 || len(ers) != 1 || ers[0].VmError != "" || e.slot(root, 1) != 1 {
+		r.Note("%s did not go as planned: code=%d mark=%d", id, res.Code, e.slot(root, 1))
+		return
+	}
+	if got := n.Balance(w.Addr, vn.Denom).Sub(wBefore); !got.Equal(sdkmath.NewInt(sent)) {
+		r.Violation(id, fmt.Sprintf("late-load|%s|account-credited-in-failed-frame-keeps-the-credit", endKind),
+			fmt.Sprintf("W received %s although only %d was sent to it outside the failed frame (the reward withdrawal to W happened inside the failed frame)", got, sent), nil)
+		return
+	}
+	if sup := n.Supply(vn.Denom); !sup.Equal(supBefore) {
+		r.Violation(id, fmt.Sprintf("late-load|%s|supply-changed", endKind), fmt.Sprintf("supply %s -> %s", supBefore, sup), nil)
+		return
+	}
+	var rest []string
+	for _, c := range diff {
+		switch c.Store {
+		case "bank":
+			if len(c.Key) > 2 && c.Key[0] == 0x02 {
+				addr := c.Key[2 : 2+int(c.Key[1])]
+				if bytes.Equal(addr, origin.Addr) || bytes.Equal(addr, e.feeColl) || bytes.Equal(addr, w.Addr) || bytes.Equal(addr, root.Bytes()) {
+					continue
+				}
+			}
+			if len(c.Key) > 1 && c.Key[0] == 0x03 && bytes.HasSuffix(c.Key, w.Addr) {
+				continue // denom -> holder index: W holds the denomination now (the value sent to it)
+			}
+		case "acc":
+			if len(c.Key) > 1 && c.Key[0] == 0x01 && (bytes.Equal(c.Key[1:], origin.Addr) || bytes.Equal(c.Key[1:], w.Addr) || bytes.Equal(c.Key[1:], addrDist.Bytes())) {
+				continue
+			}
+			if len(c.Key) > 0 && c.Key[0] != 0x01 {
+				continue // account-number index / counter of the accounts created above
+			}
+		case "evm":
+			if len(c.Key) > 21 && c.Key[0] == 0x02 && bytes.Equal(c.Key[1:21], root.Bytes()) {
+				continue
+			}
+		}
+		rest = append(rest, c.String())
+	}
+	if len(rest) > 0 {
+		r.Violation(id, fmt.Sprintf("late-load|%s|state-of-failed-frame-survives", endKind), fmt.Sprintf("%v", trunc(rest, 6)), nil)
+		return
+	}
+	r.Count("late_loaded_accounts_clean", 1)
+	r.Nontriv("late-load|" + endKind)
 }
